@@ -5,7 +5,7 @@ import pandas as pd
 from .. import common, checklib
 
 LEVEL = "exploration"
-RHS = ["x", "1", "0 + x", "g2", "x + g2", "x*g2", "(1|g2)", "x + (x|g2)"]
+RHS = ["x", "1", "0 + x", "g2", "x + g2", "x*g2", "(1|g2)", "x + (x|g2)", "x + T(g2, 'l')", "binary(g2, 'k') + C(g2, Treatment('m'))"]
 
 
 def frame(seed, n=24):
@@ -58,12 +58,14 @@ FORMS = ["y", "np.log(trials)", "s", "sp", "c", "o", "s[a]", "s['b']", "sp['two 
 
 
 def PROOFS():
-    from ..contracts import transforms_c, variable_c, terms_c, matrices_c  # noqa: F401
+    from ..contracts import transforms_c, variable_c, terms_c, matrices_c, scanner_c  # noqa: F401
     T = "formulae.transforms."
     return [("vf.contracts.transforms_c", [T + "Proportion.__init__", T + "Proportion.eval"]),
             ("vf.contracts.variable_c", ["formulae.terms.variable.Variable.eval_categoric"]),
             ("vf.contracts.terms_c", ["formulae.terms.terms.Response.__init__"]),
-            ("vf.contracts.matrices_c", ["formulae.matrices.ResponseMatrix.evaluate"])]
+            ("vf.contracts.matrices_c", ["formulae.matrices.ResponseMatrix.evaluate"]),
+            # the level of y['level'] is the text between its own quotes
+            ("vf.contracts.scanner_c", ["formulae.scanner.Scanner.char", "formulae.scanner.Scanner.add_token"])]
 
 
 def run(report, findings):
@@ -77,6 +79,20 @@ def run(report, findings):
     res = []
     for sd in seeds:
         d = frame(sd)
+        # "a numeric response is returned unchanged": exactly, also integers no double represents, unsigned and boolean columns
+        rng_ = np.random.default_rng(sd)
+        exact = {"big": (2 ** 53 + 1 + 2 * rng_.integers(0, 1000, size=len(d))).astype(np.int64),
+                 "ubig": (2 ** 64 - 1 - rng_.integers(0, 1000, size=len(d)).astype(np.uint64)).astype(np.uint64),
+                 "small": rng_.integers(-5, 5, size=len(d)), "flag": rng_.integers(0, 2, size=len(d)).astype(bool)}
+        de = d.assign(**exact)
+        for name, want in exact.items():
+            for rhs in ("x", "1", "x + g2"):
+                try:
+                    got = np.asarray(design_matrices(f"{name} ~ {rhs}", de).response.design_matrix).reshape(-1)
+                    same = [int(v) for v in got] == [int(v) for v in want] and (name != "big" and name != "ubig" or got.dtype.kind in "iu")
+                    res.append((f"{name} ~ {rhs}", "ok" if same else f"numeric response is not returned unchanged (dtype {got.dtype})"))
+                except Exception as ex:
+                    res.append((f"{name} ~ {rhs}", f"raised {type(ex).__name__}: {ex}"))
         for rhs in RHS:
             try:
                 base = design_matrices(rhs, d)
